@@ -1,4 +1,5 @@
 """Implementation-side and reference-side encodings of "this input is a completely parsed document"."""
+import json
 import z3
 from common import REPO, Inconclusive
 from sx import nomsem, sym, active
@@ -17,6 +18,125 @@ def grammar():
     if _dump is None:
         _dump = nomsem.Dump(GRAMMAR_FILES + [INFO_FILE])
     return nomsem.Grammar(_dump)
+
+
+def norm_ty(t):
+    import re
+    t = re.sub(r"<\s*'[a-z_]+\s*>", "", t or "")
+    t = re.sub(r"&\s*'[a-z_]+\s*", "&", t)
+    t = t.replace(" ", "").replace("model::", "").replace("xml_nom::", "")
+    return t
+
+
+def variant_arms(g, file):
+    """match arms in `file` whose pattern is a parser-model variant and whose body refuses or panics:
+    -> list of (enum, variant, action, fn name, line) with action in {'panic', 'reject'}"""
+    out = []
+
+    def classify(body):
+        b = body
+        while b["k"] == "block" and len(b["stmts"]) == 1 and b["stmts"][0]["k"] == "expr":
+            b = b["stmts"][0]["e"]
+        if b["k"] == "macro" and b["name"] in ("unimplemented", "todo", "panic", "unreachable"):
+            return "panic" if b["name"] != "unreachable" else None
+        if b["k"] == "return" and b["e"] and b["e"]["k"] == "call" and b["e"]["func"].get("segs", [""])[-1] == "Err":
+            return "reject"
+        if b["k"] == "try" and b["e"]["k"] == "call" and b["e"]["func"].get("segs", [""])[-1] == "Err":
+            return "reject"
+        if b["k"] == "call" and b["func"].get("segs", [""])[-1] == "Err":
+            return "reject"
+        return None
+
+    def walk(v, fname):
+        if isinstance(v, dict):
+            if v.get("k") == "match":
+                for arm in v["arms"]:
+                    pats = arm["pat"]["cases"] if arm["pat"]["k"] == "or" else [arm["pat"]]
+                    for p in pats:
+                        segs = None
+                        if p["k"] in ("tuplestruct", "path", "struct"):
+                            segs = p["path"]["segs"]
+                        if segs and len(segs) >= 3 and segs[0] == "parser":
+                            act = classify(arm["body"])
+                            if act:
+                                out.append((segs[-2], segs[-1], act, fname, arm.get("line")))
+            for x in v.values():
+                walk(x, fname)
+        elif isinstance(v, list):
+            for x in v:
+                walk(x, fname)
+    for it in g.dump.items[file]:
+        if "body" in it:
+            walk(it["body"], ((it.get("self_ty") or "") + "::" + it["name"]).strip(":"))
+    return out
+
+
+def variant_sites(g, enum, variant):
+    """grammar sites map(P, F) of parser/src/lib.rs whose F builds model::<enum>::<variant>"""
+    f = GRAMMAR_FILES[0]
+    model_f = GRAMMAR_FILES[1]
+    sites = []
+
+    def ctor_variant(fnname, arg_ty):
+        # assoc fn or From impl of the enum in model.rs: which variant does it build?
+        hits = []
+        for (ff, self_ty, name), fns in g.dump.methods.items():
+            if ff != model_f or not self_ty.startswith(enum) or name != fnname:
+                continue
+            for fn in fns:
+                if fnname == "from" and arg_ty is not None:
+                    pty = norm_ty(fn["params"][0]["ty"])
+                    if pty != arg_ty:
+                        continue
+                txt = json.dumps(fn["body"])
+                vs = set()
+
+                def walk(v):
+                    if isinstance(v, dict):
+                        if v.get("k") in ("call", "path", "struct"):
+                            segs = v.get("func", {}).get("segs") if v.get("k") == "call" else (v.get("segs") or v.get("path", {}).get("segs"))
+                            if segs and len(segs) >= 2 and segs[-2] in (enum, "Self"):
+                                vs.add(segs[-1])
+                        for x in v.values():
+                            walk(x)
+                    elif isinstance(v, list):
+                        for x in v:
+                            walk(x)
+                walk(fn["body"])
+                hits.append(vs)
+        return hits
+
+    for key in list(g.dump.fns):
+        if key[0] != f:
+            continue
+        ref = g.production(key[1], f)
+        try:
+            body = g.body_of(ref)
+        except nomsem.Unsupported:
+            continue
+        for n in active.find_nodes(g, ref, lambda n: n.kind == "map" and isinstance(n.arg, dict) and n.arg.get("k") == "path"):
+            segs = n.arg["segs"]
+            if len(segs) < 2 or segs[-2] != enum:
+                continue
+            if segs[-1] == variant:
+                sites.append(n)
+                continue
+            # output type of the mapped parser, when it is a production
+            kid = n.kids[0]
+            arg_ty = None
+            if kid.kind == "ref":
+                fn = g.dump.fns.get((kid.arg[0], kid.arg[1]))
+                ret = norm_ty(fn["ret"]) if fn else ""
+                if ret.startswith("IResult<&str,") and ret.endswith(">"):
+                    arg_ty = ret[len("IResult<&str,"):-1]
+            elif kid.kind in ("class0", "class1", "tag", "recognize"):
+                arg_ty = "&str"
+            for vs in ctor_variant(segs[-1], arg_ty):
+                if vs == {variant}:
+                    sites.append(n)
+                elif variant in vs:
+                    raise nomsem.Unsupported("constructor %s builds several variants" % "::".join(segs))
+    return sites
 
 
 def charref_fn_model(g, name):
@@ -127,6 +247,32 @@ class Impl:
             if not ns:
                 raise nomsem.Unsupported("no reference site found in %s" % prod)
             self.sites += ns
+        # entity values: XmlEntityValue::new checks character references only (entity references are bypassed)
+        self.charref_only_sites = []
+        evn = g.dump.methods.get((INFO_FILE, "XmlEntityValue", "new"), [])
+        if len(evn) != 1:
+            raise nomsem.Unsupported("XmlEntityValue::new not found")
+        g.used_fns[(INFO_FILE, "XmlEntityValue::new")] = g.dump.fn_hash(evn[0])
+        import json as _json
+        evtxt = _json.dumps(evn[0]["body"])
+        has10, has16 = "char_from_char10" in evtxt, "char_from_char16" in evtxt
+        if has10 != has16:
+            raise nomsem.Unsupported("XmlEntityValue::new validates only one radix")
+        if has10:
+            pr = g.production("entity_value", f)
+            ns = active.find_nodes(g, pr, lambda n: n.kind == "map" and n.kids and is_ref_to(n.kids[0], "reference"))
+            if not ns:
+                raise nomsem.Unsupported("no reference site found in entity_value")
+            self.charref_only_sites = ns
+        # parse-model variants that info refuses (return Err) or panics on (unimplemented!/todo!/panic!)
+        self.reject_sites, self.panic_sites = [], []
+        self.arms = variant_arms(g, INFO_FILE)
+        for enum, variant, action, fname, line in self.arms:
+            vs = variant_sites(g, enum, variant)
+            if not vs:
+                raise nomsem.Unsupported("no grammar site builds parser::%s::%s (arm in %s)" % (enum, variant, fname))
+            for n in vs:
+                (self.reject_sites if action == "reject" else self.panic_sites).append((n, "%s::%s in %s:%s" % (enum, variant, fname, line)))
         nm = active.find_nodes(g, self.p_entity_ref, lambda n: is_ref_to(n, "name"))
         if len(nm) != 1:
             raise nomsem.Unsupported("entity_ref shape")
@@ -183,15 +329,26 @@ class Impl:
     def info_ok(self, acc):
         """conjunction of the info-level reject rules over every reference the items are built from"""
         act = active.activation(self.run, self.doc, acc)
+        self.act = act
         self.instances = len(act)
         conds = []
-        for site in self.sites:
+        for n, why in self.reject_sites:
+            for (nid, p), (node, a) in act.items():
+                if nid == n.id:
+                    conds.append(Not(a))
+        pan = []
+        for n, why in self.panic_sites:
+            for (nid, p), (node, a) in act.items():
+                if nid == n.id:
+                    pan.append(a)
+        self.panic_cond = Or(*pan)
+        for site in self.sites + self.charref_only_sites:
             for (nid, p), (node, a) in list(act.items()):
                 if nid != site.id:
                     continue
                 sub = active.activation_from(self.run, site, p, a)
                 for (nid2, q), (n2, a2) in sub.items():
-                    if nid2 == self.n_entname.id:
+                    if nid2 == self.n_entname.id and site not in self.charref_only_sites:
                         for e, ce in self.run.ends(n2, q).items():
                             names = PREDEFINED + list(self.declared or [])
                             okn = Or(*[self._is_word(q, e - q, w) for w in names])
